@@ -1330,3 +1330,89 @@ func c18DurationAuthority(c *Ctx, r *Report, rule string) {
 	}
 	r.Floor(rule, 2, "the error return and the seconds return of kfDuration")
 }
+
+// ---------------------------------------------------------------- C11-b arithmetic helpers are a left fold
+
+// c11LeftFold (C11-b/left-fold): {sumi a b c ..}, {subi ..}, {divf ..} are
+// documented (and implemented) as a left fold: ((a op b) op c) .. over the
+// arguments in order. Subtraction and division are not associative, integer
+// arithmetic wraps and float arithmetic rounds, so any other grouping - folding
+// runs of constant operands ahead of time, pairing operands, folding from the
+// right - gives different values. In every helper that receives the binary
+// operation as a parameter, that parameter is used only as `acc = op(acc, x)`
+// inside the stage closure, with acc a local of that closure.
+func c11LeftFold(c *Ctx, r *Report, rule string) {
+	n := 0
+	for _, fi := range c.AllFuncDecls(stdlibPkg) {
+		fd := fi.Decl
+		if fd.Recv != nil || fd.Type.Params == nil {
+			continue
+		}
+		info := fi.Pkg.TypesInfo
+		var op types.Object
+		for _, f := range fd.Type.Params.List {
+			for _, nm := range f.Names {
+				o := info.Defs[nm]
+				if o == nil {
+					continue
+				}
+				sig, ok := o.Type().Underlying().(*types.Signature)
+				if ok && sig.Params().Len() == 2 && sig.Results().Len() == 1 &&
+					types.Identical(sig.Params().At(0).Type(), sig.Params().At(1).Type()) && types.Identical(sig.Params().At(0).Type(), sig.Results().At(0).Type()) {
+					if b, isB := sig.Results().At(0).Type().Underlying().(*types.Basic); isB && b.Info()&types.IsNumeric != 0 {
+						op = o
+					}
+				}
+			}
+		}
+		if op == nil {
+			continue
+		}
+		// returns a KeyBuilderFunction: this is an arithmetic helper factory
+		if fd.Type.Results == nil || len(fd.Type.Results.List) != 1 || !isNamed(info.TypeOf(fd.Type.Results.List[0].Type), "rare/pkg/expressions", "KeyBuilderFunction") {
+			continue
+		}
+		n++
+		okUses := map[*ast.Ident]bool{}
+		folds := 0
+		for _, fl := range funcLitsIn(fd.Body) {
+			if !isStageLit(info, fl) {
+				continue
+			}
+			ast.Inspect(fl.Body, func(x ast.Node) bool {
+				as, ok := x.(*ast.AssignStmt)
+				if !ok || len(as.Lhs) != 1 || len(as.Rhs) != 1 || as.Tok != token.ASSIGN {
+					return true
+				}
+				ce, ok := ast.Unparen(as.Rhs[0]).(*ast.CallExpr)
+				if !ok || len(ce.Args) != 2 {
+					return true
+				}
+				id, ok := ast.Unparen(ce.Fun).(*ast.Ident)
+				if !ok || info.Uses[id] != op {
+					return true
+				}
+				acc := identObj(info, as.Lhs[0])
+				if acc != nil && identObj(info, ce.Args[0]) == acc && within(fl, acc.Pos()) {
+					okUses[id] = true
+					folds++
+				}
+				return true
+			})
+		}
+		var stray *ast.Ident
+		ast.Inspect(fd.Body, func(x ast.Node) bool {
+			if id, ok := x.(*ast.Ident); ok && info.Uses[id] == op && !okUses[id] {
+				stray = id
+			}
+			return true
+		})
+		pos := fd.Pos()
+		if stray != nil {
+			pos = stray.Pos()
+		}
+		r.Check(stray == nil && folds >= 1, rule, fi.Name, op.Name()+" applied as a left fold", c.Pos(pos), "who-may-call: the operation is only applied as acc = op(acc, next) inside the stage closure",
+			"the binary operation of an arithmetic helper is used other than as the left fold acc = op(acc, next) over the arguments in order (handed to another function, applied between operands ahead of time, or with the accumulator on the right): for subtraction, division, wrapping integer and rounding float arithmetic a different grouping gives a different value")
+	}
+	r.Floor(rule, 3, "arithmaticHelperi, arithmaticHelperiNonZero, arithmaticHelperf")
+}
